@@ -429,7 +429,9 @@ def store_op(st, t, sent, mops):
         except Exception:
             pass
     try:
-        if t.verified:
+        # (the rows utxos_update makes for funding transactions have no inputs: such an object has no serialisation
+        # that parses back, zero inputs read as the segwit marker)
+        if t.verified and len(t.inputs) > 0:
             st.fixed.setdefault(t.txid, t.raw_hex())
     except Exception:
         pass
